@@ -325,6 +325,37 @@ func jobC13(c *rt.Ctx) {
 			}
 		}
 	}
+	// no input is modified, whatever its CONTENT: the C01 triple space at deviation level <= 1 (torsion,
+	// non-canonical, undecodable key / R, S perturbations, lengths) through single and batch verification
+	// with every argument compared byte for byte before and after the call
+	c.Require("content-intact")
+	modHook = func(api, which string, before, after []byte) {
+		c.Violation(fmt.Sprintf("C13 %s modifies its %s argument", api, which), fmt.Sprintf("%s changed the caller's %s: %x -> %x", api, which, before, after), map[string]interface{}{"api": api, "argument": which, "before": ref.Hex(before), "after": ref.Hex(after)})
+	}
+	sp := newTripleSpace(false)
+	rt.EnumDev(sp.sizes, 1, func(level int, v []int) {
+		if !sp.valid(v) {
+			return
+		}
+		if !c.Take() {
+			return
+		}
+		t, vs, _ := sp.build(v)
+		c.Class("content-intact")
+		c.Distinct(fmt.Sprint("ci", v), true)
+		for _, zip := range []bool{false, true} {
+			implSingle(t, vs, zip)
+			implSingleOpts(t, vs, zip)
+			c.Step(2)
+			if len(t.key) == 32 {
+				for _, sh := range []batchShape{{0, 4}, {2, 5}, {64, 68}} {
+					implBatch(batchWith(t, sh.pos, sh.n, vs), vs, zip, rt.NewRng(c.Seed, "c13ci"))
+					c.Step(1)
+				}
+			}
+		}
+	})
+	modHook = nil
 	// aliasing: results equal to the unaliased call, inputs unmodified
 	for ai := 0; ai < 6; ai++ {
 		if !c.Take() {
